@@ -4,18 +4,23 @@ package bcast
 
 import (
 	"context"
+	"crypto/sha256"
+	"encoding/binary"
 	"time"
 
 	"github.com/libp2p/go-libp2p/core/peer"
 	"google.golang.org/protobuf/proto"
 	"google.golang.org/protobuf/types/known/anypb"
+
+	"github.com/obolnetwork/charon/app/errors"
 )
 
 const (
 	// Note: v2.0.0 binds signed hashes to the session hash and message ID,
+	// v2.1.0 additionally binds the signatures to the broadcasting peer,
 	// the version bump makes mixed-version ceremonies fail at stream negotiation
 	// instead of at signature verification.
-	protocolIDPrefix = "/charon/dkg/bcast/2.0.0"
+	protocolIDPrefix = "/charon/dkg/bcast/2.1.0"
 	protocolIDSig    = protocolIDPrefix + "/sig"
 	protocolIDMsg    = protocolIDPrefix + "/msg"
 	receiveTimeout   = time.Minute                    // Allow for peers to be out of sync, with some sending messages much earlier and having to wait.
@@ -34,8 +39,25 @@ type CheckMessage func(ctx context.Context, peerID peer.ID, msgAny *anypb.Any) e
 // signFunc is a function that signs a hash.
 type signFunc func(msgID string, hash []byte) ([]byte, error)
 
-// verifyFunc is a function that verifies a message and its signatures.
-type verifyFunc func(string, *anypb.Any, [][]byte) error
+// verifyFunc is a function that verifies a message broadcast by sender and its signatures.
+type verifyFunc func(sender peer.ID, msgID string, msg *anypb.Any, sigs [][]byte) error
+
+// senderHash binds a message hash to the peer broadcasting it. It is what peers actually sign, so the
+// fully signed message of one peer cannot be re-broadcast by another peer under its own identity.
+func senderHash(sender peer.ID, hash []byte) ([]byte, error) {
+	h := sha256.New()
+	for _, field := range [][]byte{[]byte(sender), hash} {
+		if err := binary.Write(h, binary.BigEndian, uint64(len(field))); err != nil {
+			return nil, errors.Wrap(err, "write field length")
+		}
+
+		if _, err := h.Write(field); err != nil {
+			return nil, errors.Wrap(err, "write field")
+		}
+	}
+
+	return h.Sum(nil), nil
+}
 
 // BroadcastFunc is a function that reliably-broadcasts a message to all peers (excluding self).
 type BroadcastFunc func(ctx context.Context, msgID string, msg proto.Message) error
